@@ -156,7 +156,7 @@ class ModuleState(object):
         import copy
         self.ref = []
         for qual, holder, name, obj in _module_items():
-            if isinstance(obj, (list, dict)) and len(obj) == 0:
+            if obj is None or (isinstance(obj, (list, dict)) and len(obj) == 0):
                 # a container that is empty at import time is not a table or a constant (it can
                 # only be a cache or a registry filled at run time); what such a cache does to
                 # results is judged by behaviour (repeat / reuse / fresh-object relations)
@@ -316,6 +316,16 @@ def angle_lists(n=5, lat=False):
             x += s
         return out
     return st.builds(build, base, st.lists(st.floats(0.05, 1.5), min_size=n, max_size=n))
+
+
+def conj_tables(k):
+    """k parallel lists of Angles of one common length 3..8 (odd and even), given as lists or
+    as tuples (both documented)."""
+    def build(n, as_tuple, cols):
+        cols = [c[:n] for c in cols]
+        return [({"$T": c} if as_tuple else c) for c in cols]
+    cols = [angle_lists(8, lat=(i % 2 == 1)) for i in range(k)]
+    return st.builds(build, st.integers(3, 8), st.booleans(), st.tuples(*cols))
 
 
 class Spec(object):
@@ -576,13 +586,12 @@ def triangle():
 
 API[C + "phase_angle"] = VarSpec(C + "phase_angle", triangle())
 API[C + "illuminated_fraction"] = VarSpec(C + "illuminated_fraction", triangle())
-API[C + "planetary_conjunction"] = VarSpec(C + "planetary_conjunction", st.tuples(
-    angle_lists(), angle_lists(lat=True), angle_lists(), angle_lists(lat=True)).map(list),
-    refusals=[("ValueError", "")])
-API[C + "planet_star_conjunction"] = VarSpec(C + "planet_star_conjunction", st.tuples(
-    angle_lists(), angle_lists(lat=True), A(10, 340), A(-80, 80)).map(list), refusals=[("ValueError", "")])
-API[C + "planet_stars_in_line"] = VarSpec(C + "planet_stars_in_line", st.tuples(
-    angle_lists(), angle_lists(lat=True), A(10, 340), A(-80, 80), A(10, 340), A(-80, 80)).map(list),
+API[C + "planetary_conjunction"] = VarSpec(C + "planetary_conjunction", conj_tables(4),
+                                           refusals=[("ValueError", "")])
+API[C + "planet_star_conjunction"] = VarSpec(C + "planet_star_conjunction", st.builds(
+    lambda t, a, d: t + [a, d], conj_tables(2), A(10, 340), A(-80, 80)), refusals=[("ValueError", "")])
+API[C + "planet_stars_in_line"] = VarSpec(C + "planet_stars_in_line", st.builds(
+    lambda t, a, d, a2, d2: t + [a, d, a2, d2], conj_tables(2), A(10, 340), A(-80, 80), A(10, 340), A(-80, 80)),
     refusals=[("ValueError", "")])
 # two bodies that pass close to each other inside the tabulated interval (the documented use:
 # Meeus ch. 18); body 2 = body 1 shifted by a small offset that changes sign across the table
